@@ -169,6 +169,15 @@ def assignIt (s : DStr) (xs : List Nat) : Option DStr :=
   (Vec.assign (Vec.reserve s.data (xs.length + 1)) xs).bind fun v1 =>
   (Vec.pushBack v1 0).map fun v2 => ⟨v2, v2.items.length - 1⟩
 
+/-- `insert(iterator thePosition, theChar)` with the returned iterator (as an index into the string) -/
+def insertAt (s : DStr) (pos c : Nat) : Option (DStr × Nat) :=
+  if s.data.items.length = 0 then (assignN s 1 c).map (·, 0)
+  else (Vec.insertOne s.data pos c).map fun v => (⟨v, s.size + 1⟩, pos)
+
+/-- the iterators returned by `erase(iterator)` and `erase(iterator, iterator)`: the position following the
+removed units -/
+def eraseAtRet (s : DStr) (pos : Nat) : Option (DStr × Nat) := (eraseAt s pos).map (·, pos)
+
 /-- `operator[]` -/
 def get (s : DStr) (i : Nat) : Option Nat := s.data.items[i]?
 
